@@ -17,13 +17,17 @@
 (* predicts is counted in `drift` (reported as a NOTE, not a verdict).     *)
 (*                                                                         *)
 (* Events:                                                                 *)
-(*  reset  case, ty, shape, nres, dflt[1..nres]                            *)
+(*  reset  case, ty, shape, nres, dflt[1..nres], pdef[1..nres] (Default    *)
+(*         of the resource's type panics)                                  *)
 (*  decl   via (type | accessor), out, reads, writes        abstract ids   *)
 (*  fetch  via, present[1..nres] (booleans), held[1..nres] (class held by  *)
 (*         somebody else), out (ok | missing | borrow | other), pres,      *)
 (*         alive[1..nres], after[1..nres]   classes 0 free 1 shared        *)
 (*         2 exclusive 3 no cell                                           *)
-(*  setup  via, w0[1..nres], out, created, calls, w1[1..nres]  0 = absent  *)
+(*  setup  via, w0[1..nres], leaked[1..nres] (0 | 1 | 2: a shared /         *)
+(*         exclusive guard of the present resource was forgotten before),  *)
+(*         out (ok | panic_default | panic_borrow | panic), created, calls,*)
+(*         w1[1..nres]                                       0 = absent    *)
 (*         created: resources whose Default::default() ran, in order;      *)
 (*         calls: resources whose CUSTOM setup handler ran, in order       *)
 (*  exec   w0, out, pres, created, calls, after, w1   World::exec          *)
@@ -40,12 +44,13 @@ VARIABLES
   l,       \* next event
   nres,    \* resources of the current case
   dflt,    \* their default values
+  pdef,    \* pdef[x]: Default::default() of x's type panics ("must be inserted explicitly")
   rep,     \* what the real type reported: [reads, writes, seen]
   ok,      \* flags, one per aspect of a property
   wf,      \* input well-formed
   drift    \* number of panics at an unpredicted member
 
-tvars == <<l, nres, dflt, rep, ok, wf, drift>>
+tvars == <<l, nres, dflt, pdef, rep, ok, wf, drift>>
 
 Ev == Rec[l]
 Is(e) == l <= Len(Rec) /\ Ev.ev = e /\ l' = l + 1
@@ -55,7 +60,7 @@ OkInit == [decl |-> TRUE, acc |-> TRUE, borrows |-> TRUE, release |-> TRUE, outc
 NoRep == [reads |-> <<>>, writes |-> <<>>, seen |-> FALSE]
 UnitShape == Leaf("Unit", 0)
 
-Init == /\ l = 1 /\ nres = 0 /\ dflt = <<>> /\ rep = NoRep /\ ok = OkInit /\ wf = TRUE /\ drift = 0
+Init == /\ l = 1 /\ nres = 0 /\ dflt = <<>> /\ pdef = <<>> /\ rep = NoRep /\ ok = OkInit /\ wf = TRUE /\ drift = 0
         /\ sh = UnitShape /\ world0 = <<>> /\ world = <<>> /\ held0 = <<>> /\ borrow = <<>>
         /\ phase = "init" /\ outc = NoRes
 
@@ -66,11 +71,13 @@ TrReset ==
   /\ LET e == Ev
          good == /\ e.nres \in 0..64
                  /\ IsSeqOfLen(e.dflt, e.nres) /\ \A i \in DOMAIN e.dflt : e.dflt[i] > 0
+                 /\ IsSeqOfLen(e.pdef, e.nres) /\ \A i \in DOMAIN e.pdef : e.pdef[i] \in BOOLEAN
                  /\ WF(e.shape, e.nres)
      IN /\ wf' = good
         /\ sh' = IF good THEN e.shape ELSE UnitShape
         /\ nres' = IF good THEN e.nres ELSE 0
         /\ dflt' = IF good THEN e.dflt ELSE <<>>
+        /\ pdef' = IF good THEN e.pdef ELSE <<>>
   /\ rep' = NoRep /\ ok' = OkInit /\ drift' = drift
   /\ world0' = <<>> /\ world' = <<>> /\ held0' = <<>> /\ borrow' = <<>> /\ phase' = "init"
   /\ outc' = NoRes
@@ -88,7 +95,7 @@ TrDecl ==
                   /\ ok' = [ok EXCEPT !.acc = @ /\ good /\ (rep.seen => e.reads = rep.reads /\ e.writes = rep.writes)]
                   /\ UNCHANGED rep
   /\ phase' = "decl"
-  /\ UNCHANGED <<nres, dflt, wf, drift, sh, world0, world, held0, borrow, outc>>
+  /\ UNCHANGED <<nres, dflt, pdef, wf, drift, sh, world0, world, held0, borrow, outc>>
 
 BorrowOfClass(c) == IF c = 1 THEN [r |-> 1, w |-> FALSE] ELSE IF c = 2 THEN [r |-> 0, w |-> TRUE] ELSE Free
 
@@ -119,27 +126,31 @@ TrFetch ==
        /\ outc' = [NoRes EXCEPT !.out = e.out, !.res = e.pres]
        /\ wf' = wf
   /\ phase' = "fetch"
-  /\ UNCHANGED <<nres, dflt, rep, sh, world0, world>>
+  /\ UNCHANGED <<nres, dflt, pdef, rep, sh, world0, world>>
 
 TrSetup ==
   /\ Is("setup")
   /\ LET e == Ev
-         shaped == /\ IsSeqOfLen(e.w0, nres) /\ IsSeqOfLen(e.w1, nres)
+         shaped == /\ IsSeqOfLen(e.w0, nres) /\ IsSeqOfLen(e.w1, nres) /\ IsSeqOfLen(e.leaked, nres)
                    /\ \A x \in 1..nres : e.w0[x] # dflt[x]      \* distinctive pre-existing values
+                   /\ \A x \in 1..nres : e.leaked[x] \in {0, 1, 2} /\ (e.leaked[x] # 0 => e.w0[x] # Absent)
      IN
      IF ~wf \/ ~shaped THEN wf' = (wf /\ shaped) /\ UNCHANGED <<ok, world0, world, outc>>
      ELSE
+       LET env == [pdef |-> pdef, leaked |-> e.leaked] IN
        /\ ok' = [ok EXCEPT
-                   \* C06: setup of the composite = composition of the member setups, in order
-                   !.setupc = @ /\ e.out = "ok" /\ P_C06_setup(sh, e.w0, dflt, e.created, e.calls, e.w1),
-                   \* C13 (world half): nothing existing modified, exactly the vacant
-                   \* handler-provided resources created, Option/Expect forms create nothing
-                   !.c13 = @ /\ e.out = "ok" /\ P_C13_world(sh, e.w0, dflt, e.w1)]
+                   \* C06: setup of the composite = composition of the member setups, in order, up
+                   \* to a member whose handler panics (panicking Default / leaked guard)
+                   !.setupc = @ /\ P_C06_setup_env(sh, e.w0, dflt, env, e.out, e.created, e.calls, e.w1),
+                   \* C13 (world half): nothing existing modified, Default evaluated only for vacant
+                   \* provided resources, exactly those created, Option/Expect forms create nothing;
+                   \* the setup completes unless the environment makes a member panic
+                   !.c13 = @ /\ P_C13_setup(sh, e.w0, dflt, env, e.out, e.created, e.w1)]
        /\ world0' = e.w0 /\ world' = e.w1
        /\ outc' = [NoRes EXCEPT !.out = e.out, !.created = e.created, !.calls = e.calls]
        /\ wf' = wf
   /\ phase' = "setup"
-  /\ UNCHANGED <<nres, dflt, rep, drift, sh, held0, borrow>>
+  /\ UNCHANGED <<nres, dflt, pdef, rep, drift, sh, held0, borrow>>
 
 \* World::exec = setup, then fetch on the resulting world (nothing held by anybody else)
 TrExec ==
@@ -154,30 +165,34 @@ TrExec ==
            b0 == NoBorrows(1..nres)
            cls0 == [x \in 1..nres |-> IF x \in P THEN 0 ELSE 3]
            f == Fetch(sh, P, b0)
+           env == [pdef |-> pdef, leaked |-> [x \in 1..nres |-> 0]]
+           s == SetupEnv(sh, e.w0, dflt, env)
+           \* when the setup half panics (a panicking Default), exec panics with it: no fetch
+           sout == IF s.out = "ok" THEN "ok" ELSE e.out
        IN
        /\ ok' = [ok EXCEPT
-                   !.setupc = @ /\ P_C06_setup(sh, e.w0, dflt, e.created, e.calls, e.w1),
-                   !.c13 = @ /\ P_C13_world(sh, e.w0, dflt, e.w1),
-                   !.outcome = @ /\ P_C06_outcome(sh, P, b0, e.out),
+                   !.setupc = @ /\ P_C06_setup_env(sh, e.w0, dflt, env, sout, e.created, e.calls, e.w1),
+                   !.c13 = @ /\ P_C13_setup(sh, e.w0, dflt, env, sout, e.created, e.w1),
+                   !.outcome = @ /\ (s.out = "ok" => P_C06_outcome(sh, P, b0, e.out)),
                    !.release = @ /\ P_C06_release(cls0, e.after)]
-       /\ drift' = IF e.out \in {"missing", "borrow"} /\ (e.out # f.out \/ e.pres # f.res)
+       /\ drift' = IF s.out = "ok" /\ e.out \in {"missing", "borrow"} /\ (e.out # f.out \/ e.pres # f.res)
                    THEN drift + 1 ELSE drift
        /\ world0' = e.w0 /\ world' = e.w1 /\ held0' = b0 /\ borrow' = b0
        /\ outc' = [NoRes EXCEPT !.out = e.out, !.res = e.pres, !.created = e.created, !.calls = e.calls]
        /\ wf' = wf
   /\ phase' = "exec"
-  /\ UNCHANGED <<nres, dflt, rep, sh>>
+  /\ UNCHANGED <<nres, dflt, pdef, rep, sh>>
 
 \* the harness gave up on a case (its own failure): a tool problem, never a verdict
 TrDied ==
   /\ Is("died")
   /\ wf' = FALSE
-  /\ UNCHANGED <<nres, dflt, rep, ok, drift>> /\ UNCHANGED vars
+  /\ UNCHANGED <<nres, dflt, pdef, rep, ok, drift>> /\ UNCHANGED vars
 
 Known == {"reset", "decl", "fetch", "setup", "exec", "died"}
 TrSkip ==
   /\ l <= Len(Rec) /\ Ev.ev \notin Known /\ l' = l + 1
-  /\ UNCHANGED <<nres, dflt, rep, ok, wf, drift>> /\ UNCHANGED vars
+  /\ UNCHANGED <<nres, dflt, pdef, rep, ok, wf, drift>> /\ UNCHANGED vars
 
 TNext == TrReset \/ TrDecl \/ TrFetch \/ TrSetup \/ TrExec \/ TrDied \/ TrSkip
 Spec == Init /\ [][TNext]_<<tvars, vars>>
